@@ -857,6 +857,12 @@ const STRS: &[&str] = &["abc", "ab", "bc", "", "null", "5", "2.5", "x y", "7", "
 const FLAT: &[&str] = &["a", "b", "c", "d", "s", "t", "flag", "lst", "n1", "n2"];
 const NESTED: &[&str] = &["o.x", "o.y", "o.s", "o.p.q", "o.p.r", "o.p.w.k", "u.v", "m.z"];
 
+/// numerals the generator writes into rule text: any i64, or a short plain decimal (exactly representable in practice;
+/// the model's decimal reader is simple)
+fn short_numeral(t: &str) -> bool {
+    t.parse::<i64>().is_ok() || (t.len() <= 12 && !t.contains('e') && !t.contains("inf") && !t.contains("NaN"))
+}
+
 struct G<'a> {
     rng: &'a mut Rng,
     facts: Vec<(String, Value)>,
@@ -865,10 +871,22 @@ struct G<'a> {
 
 fn gen_scalar(rng: &mut Rng, special_floats: bool) -> Value {
     match rng.below(10) {
-        0 | 1 | 2 => Value::Integer(*rng.pick(&[0i64, 1, 2, 3, 5, 7, 10, 12, -1, -3, 100])),
+        0 | 1 | 2 => {
+            if special_floats && rng.chance(1, 12) {
+                Value::Integer(*rng.pick(X_INTS))
+            } else {
+                Value::Integer(*rng.pick(&[0i64, 1, 2, 3, 5, 7, 10, 12, -1, -3, 100]))
+            }
+        }
         3 | 4 => {
             if special_floats && rng.chance(1, 6) {
                 Value::Number(*rng.pick(&[f64::NAN, f64::INFINITY, f64::NEG_INFINITY, -0.0, -1.5]))
+            } else if special_floats && rng.chance(1, 8) {
+                // extreme magnitudes (see gen_extreme): tiny non-zero, huge, around 2^53 / 2^63
+                {
+                    let pool = *rng.pick(&[X_TINY, X_HUGE, X_MID]);
+                    Value::Number(*rng.pick(pool))
+                }
             } else {
                 Value::Number(rng.pick(FLOATS).1)
             }
@@ -905,7 +923,11 @@ impl<'a> G<'a> {
             if *k == "n1" || *k == "n2" {
                 // arithmetic material: almost always a number
                 if self.rng.chance(9, 10) {
-                    let v = if self.rng.chance(2, 3) {
+                    let v = if self.rng.chance(1, 12) {
+                        // arithmetic material of extreme magnitude / special class (every operand position of the main stream)
+                        let theme = self.rng.below(6);
+                        x_value(self.rng, theme, false)
+                    } else if self.rng.chance(2, 3) {
                         Value::Integer(*self.rng.pick(&[0i64, 1, 2, 3, 4, 6, 9, 20, -2]))
                     } else {
                         Value::Number(self.rng.pick(FLOATS).1)
@@ -957,7 +979,7 @@ impl<'a> G<'a> {
         if self.rng.chance(1, 3) {
             m.push(("u.v".into(), gen_scalar(self.rng, special)));
         }
-        if self.rng.chance(1, 25) {
+        if self.rng.chance(1, 15) {
             m.push(("o.x".into(), gen_scalar(self.rng, special)));
         }
         if self.rng.chance(1, 40) {
@@ -979,6 +1001,14 @@ impl<'a> G<'a> {
         self.any_name()
     }
     fn any_name(&mut self) -> String {
+        if self.rng.chance(1, 12) {
+            // never present, of every lexical shape (digits, underscore, upper case; flat and dotted): reads as null
+            return self.rng.pick(&["n9", "v2", "o.x2", "k_1", "a1.b", "o.p.q2", "Zed", "o.p.w.k7", "m_2.z"]).to_string();
+        }
+        if self.rng.chance(1, 12) {
+            // paths the actions write to (gen_act): under a missing link they land on a flat dotted key beside the root object
+            return self.rng.pick(&["o.new", "o.p.new", "o.nolink.f", "o.x.deep", "o.p.q.r", "miss.f", "a.sub", "z", "res", "out"]).to_string();
+        }
         if self.rng.chance(1, 2) {
             self.rng.pick(FLAT).to_string()
         } else {
@@ -1071,7 +1101,7 @@ impl<'a> G<'a> {
     }
     fn lit_near(&mut self, v: &Value) -> Value {
         match v {
-            Value::Integer(i) => Value::Integer(i + [-1i64, 0, 0, 0, 1][self.rng.below(5) as usize]),
+            Value::Integer(i) => Value::Integer(i.saturating_add([-1i64, 0, 0, 0, 1][self.rng.below(5) as usize])),
             Value::Number(x) if x.is_finite() => {
                 if self.rng.chance(1, 2) {
                     Value::Number(*x)
@@ -1099,7 +1129,7 @@ impl<'a> G<'a> {
     fn grl_ok_value(v: &Value) -> bool {
         match v {
             Value::String(s) => s.chars().all(|c| c.is_ascii_alphanumeric() || c == ' ') && !s.is_empty() && s.trim() == s,
-            Value::Number(x) => x.is_finite(),
+            Value::Number(x) => x.is_finite() && short_numeral(&format!("{:?}", x)),
             Value::Array(xs) => xs.iter().all(|x| Self::grl_ok_value(x) && !matches!(x, Value::Array(_))),
             Value::Object(_) | Value::Expression(_) => false,
             _ => true,
@@ -1194,7 +1224,7 @@ impl<'a> G<'a> {
         let r = self.rng.below(10);
         let rhs = if r < 6 {
             let t = match &val {
-                Some(Value::Integer(i)) if self.rng.chance(4, 5) => (i + [-1i64, 0, 0, 1][self.rng.below(4) as usize]).to_string(),
+                Some(Value::Integer(i)) if self.rng.chance(4, 5) => i.saturating_add([-1i64, 0, 0, 1][self.rng.below(4) as usize]).to_string(),
                 Some(Value::Number(x)) if x.is_finite() && self.rng.chance(4, 5) => {
                     let y = x + [-0.5, 0.0, 0.5][self.rng.below(3) as usize];
                     format!("{:?}", y)
@@ -1208,7 +1238,7 @@ impl<'a> G<'a> {
                 }
             };
             // keep numerals short and exactly representable (the model's decimal reader is simple)
-            let ok = t.len() <= 12 && !t.contains('e') && !t.contains("inf") && !t.contains("NaN");
+            let ok = short_numeral(&t);
             ARhs::Num(if ok { t } else { "1".into() })
         } else if r < 8 {
             let n = match self.name_with(|v| matches!(v, Value::Integer(_) | Value::Number(_))) {
@@ -1756,7 +1786,7 @@ fn gen_reach(rng: &mut Rng) -> Case {
                 _ => {
                     let k = if tops.is_empty() || rng.chance(1, 3) { rng.pick(FLAT).to_string() } else { rng.pick(&tops).clone() };
                     let val = match c.facts.iter().find(|(k2, _)| *k2 == k) {
-                        Some((_, Value::Integer(i))) => Value::Integer(i + *rng.pick(&[-20i64, -5, -1, 1, 5, 20])),
+                        Some((_, Value::Integer(i))) => Value::Integer(i.saturating_add(*rng.pick(&[-20i64, -5, -1, 1, 5, 20]))),
                         Some((_, old @ Value::Object(_))) if rng.chance(1, 2) => old.clone(),
                         _ => gen_value(rng, special),
                     };
@@ -1767,6 +1797,261 @@ fn gen_reach(rng: &mut Rng) -> Case {
         c.phases.push(Phase { kind: *rng.pick(&['p', 'p', 'w', 'm', 's', 'x']), ops });
     }
     c
+}
+
+// ------------------------------------------------------------------ FAMILY extreme numbers
+/// tiny non-zero (subnormal, min normal, around f64::EPSILON = 2^-52 on both sides, both signs)
+const X_TINY: &[f64] = &[
+    1e-300, 5e-324, 2.2250738585072014e-308, f64::EPSILON, f64::EPSILON / 2.0, 1.5e-18, 3.0e-18, 1e-17, 2.0e-17, -1.5e-18, -5e-324,
+    -2.0e-17, -1e-300, 1e-16, 2.5e-16, -2.5e-16, 1e-10, 1e-200, 4.5e-18,
+];
+/// huge (products / sums overflow to ±inf, quotients underflow to 0)
+const X_HUGE: &[f64] = &[1e300, f64::MAX, -1e300, f64::MIN, 1e308, 1e154, 1.5e154, 1e200, -1e200, 8.98846567431158e307];
+/// around 2^53 and 2^63, where i64 <-> f64 conversions stop being exact
+const X_MID: &[f64] = &[
+    9007199254740992.0, 9007199254740991.0, 9007199254740994.0, -9007199254740992.0, 9223372036854775808.0, 9223372036854774784.0,
+    -9223372036854775808.0, 18446744073709551616.0, 4503599627370496.5, 4294967296.0, 1e15, 1e19,
+];
+const X_SPECIAL: &[f64] = &[-0.0, 0.0, f64::NAN, f64::INFINITY, f64::NEG_INFINITY, -0.0, 0.0];
+const X_PLAIN: &[f64] = &[1.0, 2.0, 3.0, 0.5, -1.0, 1.5, 10.0];
+const X_INTS: &[i64] = &[
+    i64::MAX, i64::MIN, i64::MAX - 1, i64::MIN + 1, 1 << 53, (1 << 53) + 1, (1 << 53) - 1, -((1 << 53) + 1), 1 << 62, 3037000500, 3037000499,
+    1 << 32, -(1 << 62), 4611686018427387905,
+];
+const X_SMALL_INTS: &[i64] = &[0, 1, -1, 2, 3, 10, 7, -2];
+/// numeric TEXT (a string fact coerces through `str::parse::<f64>`)
+const X_NUM_STRS: &[&str] = &["1e-300", "1.5e-18", "-0.0", "NaN", "inf", "-inf", "1e400", "9007199254740993", "5e-324", "1e300", "0", "-0", "2", "0.0", "-1e-320"];
+
+/// a number of the theme's class (0 tiny, 1 huge, 2 around 2^53/2^63, 3 special, 4 integer limits, 5 any), with ordinary
+/// numbers and — when `strs` — numeric strings mixed in
+fn x_value(rng: &mut Rng, theme: u64, strs: bool) -> Value {
+    let pool = |rng: &mut Rng, t: u64| -> Value {
+        match t {
+            0 => Value::Number(*rng.pick(X_TINY)),
+            1 => Value::Number(*rng.pick(X_HUGE)),
+            2 => Value::Number(*rng.pick(X_MID)),
+            3 => Value::Number(*rng.pick(X_SPECIAL)),
+            _ => Value::Integer(*rng.pick(X_INTS)),
+        }
+    };
+    match rng.below(20) {
+        0..=10 => {
+            let t = if theme >= 5 { rng.below(5) } else { theme };
+            pool(rng, t)
+        }
+        11 | 12 => Value::Number(*rng.pick(X_PLAIN)),
+        13 | 14 | 15 => Value::Integer(*rng.pick(X_SMALL_INTS)),
+        16 if strs => Value::String(rng.pick(X_NUM_STRS).to_string()),
+        _ => {
+            let t = rng.below(5);
+            pool(rng, t)
+        }
+    }
+}
+/// the neighbouring double (one unit in the last place up / down)
+fn nudge(x: f64, up: bool) -> f64 {
+    if !x.is_finite() {
+        return x;
+    }
+    if x == 0.0 {
+        return if up { 5e-324 } else { -5e-324 };
+    }
+    let b = x.to_bits();
+    f64::from_bits(if (x > 0.0) == up { b + 1 } else { b - 1 })
+}
+/// a value to compare `v` with: itself, a neighbour, its negation, the same number in the other numeric class, a pool value
+fn x_near(rng: &mut Rng, v: &Option<Value>, theme: u64) -> Value {
+    match v {
+        Some(Value::Number(x)) => match rng.below(8) {
+            0 | 1 => Value::Number(*x),
+            2 => Value::Number(nudge(*x, true)),
+            3 => Value::Number(nudge(*x, false)),
+            4 => Value::Number(-*x),
+            5 if x.fract() == 0.0 && x.abs() < 9.3e18 => Value::Integer(*x as i64),
+            6 => Value::Number(0.0),
+            _ => x_value(rng, theme, false),
+        },
+        Some(Value::Integer(i)) => match rng.below(7) {
+            0 | 1 => Value::Integer(*i),
+            2 => Value::Integer(i.saturating_add(1)),
+            3 => Value::Integer(i.saturating_sub(1)),
+            4 => Value::Number(*i as f64),
+            5 => Value::Number(nudge(*i as f64, rng.chance(1, 2))),
+            _ => x_value(rng, theme, false),
+        },
+        _ => x_value(rng, theme, false),
+    }
+}
+
+/// FAMILY extreme numbers: facts (flat `x y z w`, nested `p.mass p.volume p.k`) hold numbers that do not survive a careless
+/// change of representation — tiny non-zero floats (subnormal, min normal, both sides of f64::EPSILON, both signs), huge ones
+/// (results overflow to ±inf / underflow to 0), floats and integers around 2^53 and 2^63 (i64 <-> f64 no longer exact),
+/// -0.0, NaN, ±inf, i64::MIN / i64::MAX and neighbours, numeric strings of the same classes — mixed with ordinary numbers.
+/// They stand in EVERY operand position of `+ - * / %` (1..3 operators, uniform) in arithmetic conditions (left side; right
+/// side a numeral, a field aimed at the exact value / a neighbouring double / the negation / the same number as the other
+/// numeric class, or more arithmetic), on the right of field comparisons, in assignments (first action: judged by read-back;
+/// self-modifying `x = x * y` over several cycles: repeated operations), and on both sides of all six comparisons and `in`
+/// as field / literal / field reference. Decorated now and then with the API's other doors (variant bits) and later calls
+/// after the caller replaced an operand by another extreme number.
+fn gen_extreme(rng: &mut Rng) -> Case {
+    let grl = rng.chance(1, 4);
+    let theme = rng.below(6);
+    const FLATN: &[&str] = &["x", "y", "z", "w"];
+    const NESTN: &[&str] = &["p.mass", "p.volume", "p.k"];
+    let mut facts: Vec<(String, Value)> = Vec::new();
+    for k in FLATN {
+        if rng.chance(11, 12) {
+            facts.push((k.to_string(), x_value(rng, theme, true)));
+        }
+    }
+    let mut pv = Vec::new();
+    for k in ["mass", "volume", "k"] {
+        if rng.chance(11, 12) {
+            pv.push((k, x_value(rng, theme, true)));
+        }
+    }
+    facts.push(("p".into(), obj(pv)));
+    let pad = |rng: &mut Rng| if grl { 1 } else { rng.below(2) as usize };
+    let name = |rng: &mut Rng| if rng.chance(3, 5) { tok(*rng.pick(FLATN)) } else { tok(*rng.pick(NESTN)) };
+    let operand = |rng: &mut Rng| -> Atom {
+        if rng.chance(4, 5) {
+            name(rng)
+        } else if grl {
+            tok(*rng.pick(&["2", "3", "10", "0", "0.5", "1"]))
+        } else {
+            // numerals: small, exponent form, the words parse::<f64> accepts, integers at and beyond the i64 range
+            tok(*rng.pick(&[
+                "2", "3", "10", "0", "0.5", "1", "1e300", "1E300", "inf", "NaN", "infinity", "9223372036854775807", "9223372036854775808",
+                "9007199254740993", "0.0", "1e400", "4611686018427387904",
+            ]))
+        }
+    };
+    // 1..3 operators (`fixed` = 0), or exactly `fixed - 1`
+    let expr = |rng: &mut Rng, fixed: u64| -> Sum {
+        let nops = if fixed > 0 { fixed - 1 } else { *rng.pick(&[1u64, 1, 1, 2, 2, 3]) };
+        let first = name(rng);
+        let mut ops = Vec::new();
+        for _ in 0..nops {
+            let c = *rng.pick(&['p', 'm', 't', 'd', 'd', 'r']);
+            let (pl, pr) = (pad(rng), pad(rng));
+            ops.push((c, pl, pr, operand(rng)));
+        }
+        flat_sum(first, ops)
+    };
+    let cmp = |rng: &mut Rng| (*rng.pick(&["ge", "le", "gt", "lt", "eq", "ne"])).to_string();
+    let lit_ok = |v: &Value| !grl || G::grl_ok_value(v);
+    let nrules = 1 + rng.below(3) as usize;
+    let mut rules = Vec::new();
+    for i in 0..nrules {
+        let e = expr(rng, 0);
+        let val = eval_on(&facts, &e);
+        let leaf = match rng.below(8) {
+            0 | 1 | 2 => {
+                let rhs = match rng.below(6) {
+                    0 => {
+                        let t = if grl {
+                            (*rng.pick(&["0", "1", "2", "0.5", "-1", "10"])).to_string()
+                        } else {
+                            (*rng.pick(&[
+                                "0", "1", "2", "0.5", "-1", "1e-300", "1e300", "5e-324", "-0.0", "NaN", "inf", "-inf", "1.5e-18", "2.5e-16",
+                                "9223372036854775807", "-9223372036854775808", "9007199254740993", "9007199254740992.0",
+                            ]))
+                            .to_string()
+                        };
+                        ARhs::Num(t)
+                    }
+                    1 => {
+                        let k = 1 + rng.below(3);
+                        ARhs::Expr(expr(rng, k))
+                    }
+                    _ => {
+                        let b = x_near(rng, &val, theme);
+                        facts.push((format!("b{}", i), b));
+                        ARhs::Expr(single(tok(&format!("b{}", i))))
+                    }
+                };
+                Cond::Arith(e.clone(), cmp(rng), rhs)
+            }
+            3 | 4 => {
+                let b = x_near(rng, &val, theme);
+                facts.push((format!("b{}", i), b));
+                Cond::Field(format!("b{}", i), cmp(rng), SRhs::Expr(e.clone()))
+            }
+            5 | 6 => {
+                // a field against a literal: both sides of every comparison, and membership
+                let n = match name(rng) {
+                    Atom::Tok(n) => n,
+                    Atom::Lit(n) => n,
+                };
+                let cur = lookup_nf(&facts, &n);
+                let lit = x_near(rng, &cur, theme);
+                let lit = if lit_ok(&lit) { lit } else { Value::Integer(*rng.pick(X_INTS)) };
+                if rng.chance(1, 5) {
+                    let mut xs: Vec<Value> = (0..rng.below(3)).map(|_| x_value(rng, theme, false)).filter(|v| lit_ok(v)).collect();
+                    xs.push(lit);
+                    Cond::Field(n, "in".into(), SRhs::Lit(Value::Array(xs)))
+                } else {
+                    Cond::Field(n, cmp(rng), SRhs::Lit(lit))
+                }
+            }
+            _ => {
+                let (a, b) = (name(rng), name(rng));
+                let (Atom::Tok(a), b) = (a, b) else { unreachable!() };
+                Cond::Field(a, cmp(rng), SRhs::Expr(single(b)))
+            }
+        };
+        let other = Cond::Field("p.k".into(), "ne".into(), SRhs::Lit(Value::String("none".into())));
+        let cond = wrap(rng, leaf, other);
+        // first action: the expression (or a fresh one) is stored — judged by read-back
+        let mut acts = Vec::new();
+        let stored = if rng.chance(1, 2) { e } else { expr(rng, 0) };
+        let target = if rng.chance(3, 4) { format!("out{}", i) } else { "p.res".to_string() };
+        acts.push(Act::Set(target, SRhs::Expr(stored)));
+        match rng.below(8) {
+            0 | 1 => {
+                // self-modification: repeated over the cycles / calls
+                let Atom::Tok(n) = name(rng) else { unreachable!() };
+                let c = *rng.pick(&['t', 't', 'd', 'p', 'm', 'r']);
+                let (pl, pr) = (pad(rng).max(if grl { 1 } else { 0 }), pad(rng));
+                let o = operand(rng);
+                acts.push(Act::Set(n.clone(), SRhs::Expr(flat_sum(tok(&n), vec![(c, pl, pr, o)]))));
+            }
+            2 => {
+                let v = x_value(rng, theme, false);
+                let v = if lit_ok(&v) { v } else { Value::Integer(*rng.pick(X_INTS)) };
+                acts.push(Act::Set(format!("lit{}", i), SRhs::Lit(v)));
+            }
+            3 => acts.push(Act::Append("lst".into(), SRhs::Expr(expr(rng, 2)))),
+            _ => {}
+        }
+        rules.push(SRule { cond, acts });
+    }
+    let max_cycles = *rng.pick(&[1usize, 1, 1, 2, 3, 4]);
+    let mut phases = Vec::new();
+    for _ in 0..*rng.pick(&[0usize, 0, 0, 1, 1, 2]) {
+        let mut ops = Vec::new();
+        for _ in 0..1 + rng.below(2) {
+            if rng.chance(2, 3) {
+                ops.push(POp::Add(rng.pick(FLATN).to_string(), x_value(rng, theme, true)));
+            } else {
+                let v = x_value(rng, theme, true);
+                ops.push(POp::SetNested(rng.pick(NESTN).to_string(), v));
+            }
+        }
+        phases.push(Phase { kind: *rng.pick(&['p', 'p', 'w', 'm', 's', 'x']), ops });
+    }
+    let mut variant = 0u32;
+    if rng.chance(1, 3) {
+        for b in [V_LATE, V_ANALYTICS, V_SERDE, V_UNDO, V_BUILDERS] {
+            if rng.chance(1, 3) {
+                variant |= b;
+            }
+        }
+        if grl && rng.chance(1, 3) {
+            variant |= V_WHOLE;
+        }
+    }
+    Case { grl, facts, rules, max_cycles, variant, phases }
 }
 
 fn gen(rng: &mut Rng, n: usize, _tier: &str) -> Vec<String> {
@@ -1783,6 +2068,10 @@ fn gen(rng: &mut Rng, n: usize, _tier: &str) -> Vec<String> {
     // the API's other doors and caller-side edits (see gen_reach): n/10 cases, drawn after everything else
     for _ in 0..n / 10 {
         out.push(ser_case(&gen_reach(rng)));
+    }
+    // extreme numbers in every operand position (see gen_extreme): n/5 cases
+    for _ in 0..n / 5 {
+        out.push(ser_case(&gen_extreme(rng)));
     }
     out
 }
@@ -1809,6 +2098,52 @@ fn shrink_cond(c: &Cond) -> Vec<Cond> {
             v
         }
         _ => vec![],
+    }
+}
+/// shorter arithmetic: the last operand dropped, or the first one
+fn shrink_sum(e: &Sum) -> Vec<Sum> {
+    let mut v = Vec::new();
+    let mut flat: Vec<(char, usize, usize, Atom)> = Vec::new();
+    for (c, pl, pr, a) in &e.first.rest {
+        flat.push((*c, *pl, *pr, a.clone()));
+    }
+    for (c, pl, pr, t) in &e.rest {
+        flat.push((*c, *pl, *pr, t.first.clone()));
+        for (c2, pl2, pr2, a) in &t.rest {
+            flat.push((*c2, *pl2, *pr2, a.clone()));
+        }
+    }
+    if flat.is_empty() {
+        return v;
+    }
+    v.push(flat_sum(e.first.first.clone(), flat[..flat.len() - 1].to_vec()));
+    v.push(flat_sum(flat[0].3.clone(), flat[1..].to_vec()));
+    v
+}
+fn shrink_leaf_sums(c: &Cond) -> Vec<Cond> {
+    match c {
+        Cond::And(a, b) => {
+            let mut v: Vec<Cond> = shrink_leaf_sums(a).into_iter().map(|x| Cond::And(Box::new(x), b.clone())).collect();
+            v.extend(shrink_leaf_sums(b).into_iter().map(|y| Cond::And(a.clone(), Box::new(y))));
+            v
+        }
+        Cond::Or(a, b) => {
+            let mut v: Vec<Cond> = shrink_leaf_sums(a).into_iter().map(|x| Cond::Or(Box::new(x), b.clone())).collect();
+            v.extend(shrink_leaf_sums(b).into_iter().map(|y| Cond::Or(a.clone(), Box::new(y))));
+            v
+        }
+        Cond::Not(a) => shrink_leaf_sums(a).into_iter().map(|x| Cond::Not(Box::new(x))).collect(),
+        Cond::Field(n, op, SRhs::Expr(e)) => shrink_sum(e).into_iter().map(|x| Cond::Field(n.clone(), op.clone(), SRhs::Expr(x))).collect(),
+        Cond::Field(..) => vec![],
+        Cond::Arith(l, op, r) => {
+            // the left side of an arithmetic comparison keeps at least one operator
+            let mut v: Vec<Cond> =
+                shrink_sum(l).into_iter().filter(|x| !x.rest.is_empty() || !x.first.rest.is_empty()).map(|x| Cond::Arith(x, op.clone(), r.clone())).collect();
+            if let ARhs::Expr(e) = r {
+                v.extend(shrink_sum(e).into_iter().map(|x| Cond::Arith(l.clone(), op.clone(), ARhs::Expr(x))));
+            }
+            v
+        }
     }
 }
 fn shrink(case: &str) -> Vec<String> {
@@ -1877,6 +2212,40 @@ fn shrink(case: &str) -> Vec<String> {
             for ys in shrink_list(xs).into_iter().take(6) {
                 let mut d = c.clone();
                 d.facts[i].1 = Value::Array(ys);
+                out.push(d);
+            }
+        }
+    }
+    // shorter arithmetic in conditions and assignments; objects in the store with one member less
+    for i in 0..c.rules.len() {
+        for cond in shrink_leaf_sums(&c.rules[i].cond) {
+            let mut d = c.clone();
+            d.rules[i].cond = cond;
+            out.push(d);
+        }
+        for j in 0..c.rules[i].acts.len() {
+            let (Act::Set(f, r) | Act::Append(f, r)) = &c.rules[i].acts[j];
+            if let SRhs::Expr(e) = r {
+                for x in shrink_sum(e) {
+                    let mut d = c.clone();
+                    d.rules[i].acts[j] = match &c.rules[i].acts[j] {
+                        Act::Set(..) => Act::Set(f.clone(), SRhs::Expr(x)),
+                        Act::Append(..) => Act::Append(f.clone(), SRhs::Expr(x)),
+                    };
+                    out.push(d);
+                }
+            }
+        }
+    }
+    for i in 0..c.facts.len() {
+        if let Value::Object(m) = &c.facts[i].1 {
+            let mut ks: Vec<&String> = m.keys().collect();
+            ks.sort();
+            for k in ks {
+                let mut m2 = m.clone();
+                m2.remove(k);
+                let mut d = c.clone();
+                d.facts[i].1 = Value::Object(m2);
                 out.push(d);
             }
         }
